@@ -136,10 +136,18 @@ class DestTransport(StringTransport):
   (an orderly stop must close the connection only AFTER the queue has been transmitted)"""
   wrote_after_close = False
 
+  pause_next = False        # the next write overflows the write buffer: the transport pauses its producer INSIDE write()
+  paused_in_write = False
+
   def write(self, data):
     if self.disconnecting and data:
       self.wrote_after_close = True
     StringTransport.write(self, data)
+    if self.pause_next and data and self.producer is not None and self.streaming:
+      # twisted.internet.abstract.FileDescriptor.write(): buffer above bufferSize -> producer.pauseProducing()
+      self.pause_next = False
+      self.paused_in_write = True
+      self.producer.pauseProducing()
 
   def writeSequence(self, seq):
     for d in seq:
@@ -285,7 +293,13 @@ class RelayRun(object):
         tr.wrote_after_close = False
         if tr.disconnecting:
           tr._seen_closing = True
-    e = dict(e=name, arg=arg, routes=self.routes, p=self.project())
+    pd = 0
+    for d in self.dests:
+      trs = self.transports.get(d, [])
+      if trs and trs[-1].paused_in_write:
+        trs[-1].paused_in_write = False
+        pd = self.didx[d]
+    e = dict(e=name, arg=arg, routes=self.routes, p=self.project(), pd=pd)
     e.update(extra)
     self.routes = []
     self.ev.append(e)
@@ -305,6 +319,8 @@ class RelayRun(object):
         out.append(('ConnLost', k))
         if p['pconn'][i]:
           out.append(('TResume', k) if p['tp'][i] else ('TPause', k))
+          if self.cfg.get('wbuf') and not p['tp'][i] and not self.transports[d][-1].pause_next:
+            out.append(('WFull', k))
       if p['rt'][i]:
         out.append(('RetryTimer', k))
     if not self.stopped and all(p['has']):
@@ -370,6 +386,8 @@ class RelayRun(object):
       f.clientConnectionFailed(c, Failure(error.ConnectionRefusedError()))
     elif name == 'RetryTimer':
       f.clock.advance(1000)
+    elif name == 'WFull':
+      self.transports[d][-1].pause_next = True       # nothing happens yet: the next write to this connection will pause it
     elif name == 'TPause':
       c.proto.pauseProducing()
     elif name == 'TResume':
@@ -431,7 +449,7 @@ def random_run(rm, cfg, rng, nevents, settle=True, weights=None):
   run.build()
   try:
     w = dict(Arrive=6, ArriveHi=1, SendTimer=5, ConnMade=3, ConnLost=1, ConnFailed=1, RetryTimer=3,
-             TPause=1, TResume=2, Stop=0.15, RConnect=1, RDisconnect=0.4, Slow=0.7, Fast=0.5)
+             TPause=1, TResume=2, Stop=0.15, RConnect=1, RDisconnect=0.4, Slow=0.7, Fast=0.5, WFull=1.5)
     w.update(weights or {})
     for _ in range(nevents):
       en = run.enabled()
